@@ -203,6 +203,37 @@ func scenarios(w *bufio.Writer) {
 		n.op("N", func() { n.d.OnNewTransaction() })
 		endRun(w, mon, n)
 	}
+	// C12: the last requested transaction completes a block that fails verification while two of the four validators
+	// have not been heard from: the answer must still be a ChangeView (a RecoveryRequest alone is not an answer)
+	{
+		mon := begin(4, -1, 0)
+		n := mkScenNode(mon, 2, mkVals(4), -1, w)
+		n.missing = map[uint64]bool{666: true, 21: true}
+		n.badTx = map[uint64]bool{666: true}
+		n.start(0)
+		n.recv(&Payload{dbft.PrepareRequestType, 1, 0, 1, prepReq{5000000, 9, []H{Tx(21).Hash(), Tx(666).Hash()}}})
+		n.op("X 21", func() { n.d.OnTransaction(Tx(21)) })
+		n.op("X 666", func() { n.d.OnTransaction(Tx(666)) })
+		endRun(w, mon, n)
+	}
+	// C16: a subscribed backup receives the proposal (with a transaction it has to fetch) and only then the
+	// new-transaction notification: it must not ask for a view change, and answers once the transaction arrives
+	{
+		mon := begin(4, -1, 1)
+		n := mkScenNode(mon, 2, mkVals(4), -1, w, func(n *node) { n.dyn = true; n.usePool = true })
+		n.missing = map[uint64]bool{31: true}
+		n.start(0)
+		n.tm.now = n.tm.deadline
+		n.tm.armed = false
+		n.op("T 1 0", func() { n.d.OnTimeout(1, 0) }) // empty pool: subscribes and keeps waiting
+		req := &Payload{dbft.PrepareRequestType, 1, 0, 1, prepReq{5000000, 9, []H{Tx(31).Hash()}}}
+		n.recv(req)
+		n.recv(&Payload{dbft.PrepareResponseType, 1, 0, 0, prepResp{req.Hash()}})
+		n.recv(&Payload{dbft.PrepareResponseType, 1, 0, 3, prepResp{req.Hash()}})
+		n.op("N", func() { n.d.OnNewTransaction() })
+		n.op("X 31", func() { n.d.OnTransaction(Tx(31)) })
+		endRun(w, mon, n)
+	}
 }
 
 // pump delivers every broadcast payload to every other node in FIFO order until quiet (or max deliveries).
@@ -293,5 +324,64 @@ func forkScenario(w *bufio.Writer) {
 	j.recv(zc)
 	k.recv(zc)
 	fmt.Fprintf(w, "NOTE fork: heights i=%d j=%d k=%d tips differ=%v\n", i.height, j.height, k.height, i.tip != j.tip)
+	endRun(w, mon, i, j, k)
+	forkScenarioAmev(w)
+}
+
+// the same fork at an anti-MEV height (findings D1p + D2): the equivocating primary Z (validator 1) gives R2 to j and k and
+// R to i; the honest pre-commits and commits for block(R2) reach i before any proposal, are never verified, and together with
+// Z's own valid pre-commit and commit for block(R) complete i's certificates although i never sent a PreCommit itself.
+func forkScenarioAmev(w *bufio.Writer) {
+	fmt.Fprintf(w, "RUN 2001 N 4 CFG 1000000 0 0\n")
+	mon := newMonitor(2001)
+	mon.byz[1] = true
+	mk := func(id int) *node {
+		n := mkScenNode(mon, id, mkVals(4), 0, w)
+		n.start(0)
+		return n
+	}
+	i, j, k := mk(0), mk(2), mk(3)
+	R := &Payload{dbft.PrepareRequestType, 1, 0, 1, prepReq{5000000, 1, []H{Tx(1).Hash()}}}
+	R2 := &Payload{dbft.PrepareRequestType, 1, 0, 1, prepReq{5000000, 2, []H{Tx(2).Hash()}}}
+	pbR := &PreBlock{idx: 1, prev: "", ts: 5000000, nonce: 1, hashes: []H{Tx(1).Hash()}}
+	pbR2 := &PreBlock{idx: 1, prev: "", ts: 5000000, nonce: 2, hashes: []H{Tx(2).Hash()}}
+	blkR := &Block{idx: 1, prev: "", ts: 5000000, nonce: 1, hashes: []H{Tx(1).Hash()}, final: true}
+	blkR2 := &Block{idx: 1, prev: "", ts: 5000000, nonce: 2, hashes: []H{Tx(2).Hash()}, final: true}
+	var fromJK []*Payload
+	take := func(n *node) []*Payload {
+		o := append([]*Payload{}, n.out...)
+		n.out = nil
+		fromJK = append(fromJK, o...)
+		return o
+	}
+	j.recv(R2)
+	k.recv(R2)
+	for round := 0; round < 4; round++ { // responses, pre-commits, commits between j and k, with Z's pre-commit for block(R2)
+		jo, ko := take(j), take(k)
+		for _, p := range ko {
+			j.recv(p)
+		}
+		for _, p := range jo {
+			k.recv(p)
+		}
+		if round == 1 {
+			zp := &Payload{dbft.PreCommitType, 1, 0, 1, preCommit{sigv{101, pbR2.Hash()}}}
+			j.recv(zp)
+			k.recv(zp)
+		}
+	}
+	// i receives the honest pre-commits and commits for block(R2) BEFORE any proposal
+	for _, p := range fromJK {
+		if p.T == dbft.PreCommitType || p.T == dbft.CommitType {
+			i.recv(p)
+		}
+	}
+	i.recv(R)
+	i.recv(&Payload{dbft.PreCommitType, 1, 0, 1, preCommit{sigv{101, pbR.Hash()}}})
+	i.recv(&Payload{dbft.CommitType, 1, 0, 1, commit{sigv{101, blkR.Hash()}}})
+	zc := &Payload{dbft.CommitType, 1, 0, 1, commit{sigv{101, blkR2.Hash()}}}
+	j.recv(zc)
+	k.recv(zc)
+	fmt.Fprintf(w, "NOTE fork/amev: heights i=%d j=%d k=%d tips differ=%v\n", i.height, j.height, k.height, i.tip != j.tip)
 	endRun(w, mon, i, j, k)
 }
